@@ -344,6 +344,24 @@ def access_info() -> dict:
             if fname == 'memoryview' and len(call.args) == 1 and not call.keywords:
                 p1 = par.get(call)
                 p2 = par.get(p1) if p1 is not None else None
+                if isinstance(p1, ast.Assign) and p1.value is call and len(p1.targets) == 1 and isinstance(p1.targets[0], ast.Name):
+                    # a local names the flat view: every use of it must be `<local>.cast(format, shape)` / `.release()`
+                    v = p1.targets[0].id
+                    if sum(1 for n in ast.walk(fn) if isinstance(n, ast.Name) and n.id == v and isinstance(n.ctx, ast.Store)) != 1:
+                        _err(call, f'{qual}: the view of the pixel array is rebound')
+                    uses = [n for n in ast.walk(fn) if isinstance(n, ast.Name) and n.id == v and isinstance(n.ctx, ast.Load)]
+                    casts = []
+                    for u in uses:
+                        a1 = par.get(u)
+                        a2 = par.get(a1) if a1 is not None else None
+                        if isinstance(a1, ast.Attribute) and a1.value is u and isinstance(a2, ast.Call) and a2.func is a1 and a1.attr in ('cast', 'release'):
+                            if a1.attr == 'cast':
+                                casts.append((a1, a2))
+                        else:
+                            _err(u, f'{qual}: flat view of the pixel array used as {ast.unparse(a1)[:50] if a1 is not None else "?"}')
+                    if len(casts) != 1:
+                        _err(call, f'{qual}: flat view of the pixel array is cast {len(casts)} times')
+                    p1, p2 = casts[0]
                 if isinstance(p1, ast.Attribute) and p1.attr == 'cast' and isinstance(p2, ast.Call) and p2.func is p1:
                     b = _bind(p2, ['format', 'shape'], 'memoryview.cast')
                     f = b.get('format')
